@@ -158,8 +158,10 @@ fn drive(cfgv: &Value, wc: WorldCfg, out: &mut impl Write) {
         let base = steps.len();
         let mut vc = 0u64;
         let nodes = wc.nodes.clone();
+        // restart: `old` stops for good when `new` (same node id and address, next generation) starts
+        let restart: Option<(String, String)> = cfgv.get("restart").and_then(|x| x.as_array()).map(|a| (a[0].as_str().unwrap().to_string(), a[1].as_str().unwrap().to_string()));
         // a late joiner stays silent for the first part of the trace
-        let late: Option<String> = if nodes.len() > 2 && rng.random_bool(0.5) { Some(nodes[nodes.len() - 1].clone()) } else { None };
+        let late: Option<String> = if let Some((_, nw)) = &restart { Some(nw.clone()) } else if nodes.len() > 2 && rng.random_bool(0.5) { Some(nodes[nodes.len() - 1].clone()) } else { None };
         let late_until = if prefixes.is_empty() { rng.random_range(len / 3..(2 * len / 3).max(len / 3 + 1)) } else { 0 };
         // a pairwise partition during a window
         let cut: Option<(String, String)> = if nodes.len() > 1 && rng.random_bool(0.5) {
@@ -171,7 +173,8 @@ fn drive(cfgv: &Value, wc: WorldCfg, out: &mut impl Write) {
         let cut_to = cut_from + rng.random_range(0..len / 2 + 1);
         let mut cuts: std::collections::HashSet<(String, String)> = Default::default();
         for i in base..base + len {
-            let active: Vec<String> = nodes.iter().filter(|n| !(late.as_ref() == Some(n) && i < late_until)).cloned().collect();
+            let active: Vec<String> = nodes.iter().filter(|n| !(late.as_ref() == Some(n) && i < late_until))
+                .filter(|n| !(restart.as_ref().map(|r| &r.0) == Some(n) && i >= late_until)).cloned().collect();
             if w_cut > 0 && nodes.len() > 1 && rng.random_range(0..100) < w_cut {
                 let a = nodes.choose(&mut rng).unwrap().clone();
                 let b = nodes.choose(&mut rng).unwrap().clone();
@@ -212,6 +215,8 @@ fn drive(cfgv: &Value, wc: WorldCfg, out: &mut impl Write) {
                     let (src, dst) = { let rm = run.made[m].as_ref().unwrap(); (rm.src.clone(), rm.dst.clone()) };
                     let from_inflight = std::ptr::eq(pool, &inflight);
                     if from_inflight { inflight.remove(idx); }
+                    // delivery is by address: after a restart the new incarnation receives the old one's mail
+                    let dst = match &restart { Some((old, nw)) if &dst == old && i >= late_until => nw.clone(), _ => dst };
                     if is_cut(&src, &dst) || !active.contains(&dst) || rng.random_range(0..12) == 0 {
                         json!({"a": "Lose", "m": m})
                     } else {
